@@ -234,11 +234,20 @@ def run(ctx, R, tier):
     ok = False
     for h in hs:
         classes = {dotted(t) for t in (h.type.elts if isinstance(h.type, ast.Tuple) else [h.type])} if h.type is not None else set()
-        if "StopIteration" in classes:
+        if "StopIteration" in classes or any(isinstance(st, ast.Assign) and unparse(st.targets[0]) == "self.proxy" for st in h.body):
+            if not classes <= {"StopIteration", "GeneratorExit"}:
+                ok = False
+                break
             drops = any(isinstance(st, ast.Assign) and unparse(st.targets[0]) == "self.proxy" and isinstance(st.value, ast.Constant) and st.value.value is None for st in h.body)
             ok = drops and isinstance(h.body[-1], ast.Raise)
-    R.check(ok, "C10-R6", "__next__|drops-proxy-on-exhaustion", "exhaustion forgets the proxy (no close_stream for a stream the server already removed) and re-raises", nx.loc(),
-            "the client iterator keeps its proxy after exhaustion or swallows StopIteration")
+    R.check(ok, "C10-R6", "__next__|drops-proxy-on-exhaustion", "only exhaustion (StopIteration/GeneratorExit) detaches the iterator from its proxy, and it re-raises", nx.loc(),
+            "the client iterator detaches on other errors too (a transient communication error then ends the stream silently: the next fetch raises StopIteration), "
+            "or keeps its proxy after exhaustion")
+    hk_sites = {g.qualname for g, c in ctx.cg.callers_of("Pyro5.server.Daemon._housekeeping")}
+    need = {"Pyro5.svr_threads.Housekeeper.run", "Pyro5.svr_multiplex.SocketServer_Multiplex.events", "Pyro5.svr_multiplex.SocketServer_Multiplex.loop",
+            "Pyro5.svr_existingconn.SocketServer_ExistingConnection.loop"}
+    R.check(need <= hk_sites, "C10-R5", "_housekeeping|driven-by-every-server-loop", "every server loop drives housekeeping, busy or idle", hk.loc(),
+            "housekeeping is no longer called from %s: under that server (or while it is busy) streams never expire" % sorted(need - hk_sites))
     cl = ctx.fn("Pyro5.client._StreamResultIterator.close")
     ccfg = ctx.cfg(cl)
     sends = [c for c, _ in ctx.cg.calls_of(cl) if isinstance(c.func, ast.Attribute) and c.func.attr == "_pyroInvoke" and c.args and
